@@ -5,6 +5,7 @@ package main
 
 import (
 	"fmt"
+	"sync"
 
 	"github.com/ccbrown/api-fu/graphql"
 	"github.com/ccbrown/api-fu/graphql/ast"
@@ -13,7 +14,26 @@ import (
 
 type node struct{ tag string }
 
-type calls struct{ log []string }
+// the resolver call log (written by the goroutine serving the request, read by the harness afterwards)
+type calls struct {
+	mu  sync.Mutex
+	log []string
+}
+
+func (c *calls) add(k string) {
+	c.mu.Lock()
+	c.log = append(c.log, k)
+	c.mu.Unlock()
+}
+
+// take returns the log so far and empties it
+func (c *calls) take() []string {
+	c.mu.Lock()
+	defer c.mu.Unlock()
+	out := c.log
+	c.log = nil
+	return out
+}
 
 var builtinScalars = map[string]*graphql.ScalarType{
 	"Int": graphql.IntType, "String": graphql.StringType, "Boolean": graphql.BooleanType, "ID": graphql.IDType, "Float": graphql.FloatType,
@@ -105,7 +125,7 @@ func (b *builder) fields(owner string, fs []fieldDesc, resolvers bool) map[strin
 			val := b.value(f.Type, f.Ret)
 			key := owner + "." + f.Name
 			def.Resolve = func(graphql.FieldContext) (interface{}, error) {
-				b.log.log = append(b.log.log, key)
+				b.log.add(key)
 				return val, nil
 			}
 		}
